@@ -141,12 +141,17 @@ CHECKS = {
    technique="Coq proof of the selection decisions + correspondence with Builder.find_files_to_add + artefact oracle"),
  "C10": dict(
    text="Coq theorems: the re-implemented canonicalize_name is idempotent and insensitive to case, separator choice and separator runs "
-        "(compared with packaging's function on every run). The round trip dependency -> PEP 508 text -> dependency (name, extras, kind, "
-        "URL/reference/subdirectory, constraint on probes, marker on environments) and PEP 508-insignificant rewrites are judged on "
-        "600 generated requirements per quick run against packaging.requirements.",
+        "(compared with packaging's function on every run); the PEP 508 text that base_pep_508_name prints for a registry dependency whose "
+        "constraint is a single version, a half-line or a bounded range in normal form is read back by the requirement parser as the same name "
+        "and the same constraint (Model/Req.v models the registry fragment of pep508.lark by hand - NAME, extras, version specs - and the printer; "
+        "both are compared with Requirement(...) and base_pep_508_name on ~570 generated and damaged texts per quick run). The whole round trip "
+        "dependency -> PEP 508 text -> dependency (name, extras, kind, URL/reference/subdirectory, constraint on probes, marker on environments), "
+        "objects derived with with_features / without_features / with_constraint, and PEP 508-insignificant rewrites are judged on 600 generated "
+        "requirements per quick run against packaging.requirements.",
    design="8/C10",
-   note=BASE_NOTE + "Partial: the requirement grammar, URL and VCS handling are not modelled (no theorem covers them). Known finding D40.",
-   technique="Coq proof (name normal form) + round-trip oracle against packaging.requirements"),
+   note=BASE_NOTE + "Partial: extras are not in the round-trip theorem; markers inside requirements, URL and VCS handling are not modelled (no theorem "
+        "covers them). Known finding D40; D43 repaired.",
+   technique="Coq proof (name normal form; registry text round trip over a hand model of the requirement lexer) + differential correspondence + round-trip oracle against packaging.requirements"),
  "C11": dict(
    text="Coq theorems (Model/PyRange.v): the python_version / python_full_version + operator choice of create_nested_marker is exact for "
         "every interpreter X.Y.Z and every range with final bounds; the single-version branch is refuted for precision < 3 (finding "
